@@ -75,6 +75,8 @@ class G:
     def build(self, variant='G1'):
         PM, tm = self.PM, self.tm
         r = self.c.root()
+        if variant in ('G2', 'G3'):
+            return self._build_undo_chains(variant)
         r['a'] = PM()
         r['g'] = PM()
         r['g']['child'] = PM()
@@ -101,6 +103,48 @@ class G:
         r['b'] = PM()
         r['b']['back'] = r['a']
         self.commit('t8 create b -> a')
+        return self
+
+    def _undo_last(self, note):
+        import base64
+        self.db.undo(base64.encodebytes(self.s.lastTransaction()).rstrip(), self.tm.get())
+        self.commit(note)
+
+    def _build_undo_chains(self, variant):
+        """G2: an object whose current record is a back-pointer to a back-pointer (change / undo / change /
+        undo) and which holds the only reference to another object.  G3: a transaction that unlinks AND
+        modifies an object, undone later (the object is garbage in between and is resurrected)."""
+        PM = self.PM
+        r = self.c.root()
+        r['A'] = PM()
+        r['A']['B'] = PM()
+        r['A']['B']['x'] = 1
+        r['keep'] = PM()
+        self.commit('t1 root->A->B')
+        A = r['A']
+        if variant == 'G2':
+            A['v'] = 1
+            self.commit('t2 change A')
+            self._undo_last('t3 undo t2')
+            A['v'] = 2
+            self.commit('t4 change A again')
+            self._undo_last('t5 undo t4: A is now a back-pointer to a back-pointer')
+            r['keep']['n'] = 1
+            self.commit('t6 unrelated')
+            r['keep']['n'] = 2
+            self.commit('t7 unrelated')
+        else:
+            del r['A']
+            A['v'] = 2
+            self.commit('t2 unlink and modify A in one transaction')
+            r['keep']['n'] = 1
+            self.commit('t3 unrelated (A and B are garbage here)')
+            import base64
+            t2 = [t.tid for t in self.s.iterator()][-2]
+            self.db.undo(base64.encodebytes(t2).rstrip(), self.tm.get())
+            self.commit('t4 undo t2: A and B are reachable again')
+            r['keep']['n'] = 2
+            self.commit('t5 unrelated')
         return self
 
     def close(self):
